@@ -53,10 +53,10 @@
 //! the operating system's filesystem instead of turmoil-fs to validate the
 //! reference model, `C10_TRACE=1` prints the concretised ops of a replay.
 
-use crate::drivers::fsdirect::{Fe, Handle, Host, OpenFlags, PENDED};
+use crate::drivers::fsdirect::{Fe, Host, OpenFlags, PENDED};
 use crate::drivers::fshistory::{
-    self, describe, exec_model, exec_real, mflags, payload, pth, reconcile_open, resolve_slot, scan_model, scan_real, step_strategy, Last, Res,
-    Seen,
+    self, describe, exec_model, mflags, payload, pth, reconcile_open_backend, resolve_slot, scan_model, step_strategy, Last, RealBackend,
+    RealHost, Res, Seen,
 };
 pub use crate::drivers::fshistory::{Op, Step, Whence, NSLOTS, PATHS};
 use crate::engine::{replay_as, Ctx, Outcome, Tier};
@@ -65,7 +65,7 @@ use proptest::prelude::*;
 use serde::{Deserialize, Serialize};
 use serde_json::Value;
 use std::collections::{BTreeMap, BTreeSet};
-use std::io::{self, ErrorKind, SeekFrom};
+use std::io::{self, ErrorKind};
 use std::time::Duration;
 
 pub const PROP: super::Prop = super::Prop {
@@ -161,85 +161,88 @@ fn kind_name(k: ErrorKind) -> String {
 /// are properties of the op history, used to describe where known findings
 /// apply).
 #[derive(Clone, Debug, Default)]
-struct Facts {
+pub(crate) struct Facts {
     /// data or length changed since the last successful sync_all/sync_data of
     /// this file (or since creation)
-    dirty: bool,
+    pub(crate) dirty: bool,
     /// length was reduced since the last successful file sync
-    shrunk: bool,
+    pub(crate) shrunk: bool,
     /// a sync_all/sync_data of this file succeeded at some point
-    ever_synced: bool,
+    pub(crate) ever_synced: bool,
     /// renamed (as a file) and the rename(s) not yet followed by a sync_dir
     /// of one of the parent directories involved
-    renamed: Option<Ren>,
+    pub(crate) renamed: Option<Ren>,
 }
 #[derive(Clone, Debug)]
-struct Ren {
-    dirty_at_rename: bool,
+pub(crate) struct Ren {
+    pub(crate) dirty_at_rename: bool,
     /// every name the file had since the first not-yet-durable rename
-    names: Vec<String>,
+    pub(crate) names: Vec<String>,
     /// one of those names had a create/remove/rename not yet followed by a
     /// sync_dir of its parent when the file was renamed from/to it
-    entry_pending: bool,
+    pub(crate) entry_pending: bool,
 }
 impl Ren {
-    fn parents(&self) -> BTreeSet<String> {
+    pub(crate) fn parents(&self) -> BTreeSet<String> {
         self.names.iter().map(|n| parent_of(n)).collect()
     }
 }
 
 /// History facts about one name (path).
 #[derive(Clone, Debug, Default)]
-struct NameFacts {
+pub(crate) struct NameFacts {
     /// a former file under this name had unsynced data when it left the name
-    stale_pending: bool,
+    pub(crate) stale_pending: bool,
     /// a former file under this name had synced data, and no sync_dir of the
     /// parent directory happened since it left
-    stale_persisted: bool,
+    pub(crate) stale_persisted: bool,
     /// the name was created / removed / renamed from or to and no sync_dir
     /// of its parent happened since
-    entry_pending: bool,
+    pub(crate) entry_pending: bool,
     /// a file left this name (unlink / renamed away / replaced) and no
     /// sync_dir of the parent happened since
-    removal_pending: bool,
+    pub(crate) removal_pending: bool,
 }
 
-struct HostState {
-    real: Host,
-    model: Tree,
-    /// real handle table and the model's mirror of it (a slot is occupied on
+pub(crate) struct HostState {
+    /// the real side (directly driven `Fs`, the OS, or a host inside a Sim)
+    /// including its handle table
+    pub(crate) real: Box<dyn RealBackend>,
+    pub(crate) model: Tree,
+    /// the model's mirror of the real handle table (a slot is occupied on
     /// both sides or on neither)
-    rh: Vec<Option<Handle>>,
-    mh: Vec<Option<MHandle>>,
+    pub(crate) mh: Vec<Option<MHandle>>,
     /// inodes whose content/len is no longer compared, with the finding id
-    data_taint: BTreeMap<Ino, &'static str>,
+    pub(crate) data_taint: BTreeMap<Ino, &'static str>,
     /// path regions (prefix semantics) where nothing is compared any more
-    region_taint: BTreeMap<String, &'static str>,
+    pub(crate) region_taint: BTreeMap<String, &'static str>,
     // --- history facts used by the known-finding rules -------------------
     /// per file inode: history facts the known-finding rules are phrased in
-    facts: BTreeMap<Ino, Facts>,
+    pub(crate) facts: BTreeMap<Ino, Facts>,
     names: BTreeMap<String, NameFacts>,
     /// directory paths removed and the removal not yet followed by a
     /// sync_dir of the parent
-    dir_removed: BTreeSet<String>,
+    pub(crate) dir_removed: BTreeSet<String>,
     /// directories created again at a path in `dir_removed`
-    dir_recreated: BTreeSet<String>,
+    pub(crate) dir_recreated: BTreeSet<String>,
     // --- non-trivial rule ---------------------------------------------------
     /// per inode: 0 = untouched, 1 = mutated, 2 = mutated then synced, 3 = mutated again
-    mut_state: BTreeMap<Ino, u8>,
-    vacated_any: BTreeSet<String>,
-    writes: u32,
+    pub(crate) mut_state: BTreeMap<Ino, u8>,
+    pub(crate) vacated_any: BTreeSet<String>,
+    pub(crate) writes: u32,
 }
 
 impl HostState {
-    fn new(seed: u64) -> Self {
+    pub(crate) fn new(seed: u64) -> Self {
         Self::with_host(Host::new(seed, Duration::from_secs(1_000_000)))
     }
-    fn with_host(real: Host) -> Self {
+    pub(crate) fn with_host(real: Host) -> Self {
+        Self::with_backend(Box::new(RealHost::new(real)))
+    }
+    pub(crate) fn with_backend(real: Box<dyn RealBackend>) -> Self {
         HostState {
             real,
             model: Tree::new(),
-            rh: (0..NSLOTS).map(|_| None).collect(),
             mh: (0..NSLOTS).map(|_| None).collect(),
             data_taint: BTreeMap::new(),
             region_taint: BTreeMap::new(),
@@ -253,7 +256,26 @@ impl HostState {
         }
     }
 
-    fn region_tainted(&self, p: &str) -> Option<&'static str> {
+    /// Forget everything about the past (the host crashed: the software, its
+    /// handles and every not-yet-durable op are gone) and continue from `tree`
+    /// as the current — and fully durable — state.  The real backend and the
+    /// write counter are kept.
+    pub(crate) fn reset_to(&mut self, tree: Tree) {
+        self.model = tree;
+        for m in self.mh.iter_mut() {
+            *m = None;
+        }
+        self.data_taint.clear();
+        self.region_taint.clear();
+        self.facts.clear();
+        self.names.clear();
+        self.dir_removed.clear();
+        self.dir_recreated.clear();
+        self.mut_state.clear();
+        self.vacated_any.clear();
+    }
+
+    pub(crate) fn region_tainted(&self, p: &str) -> Option<&'static str> {
         for (q, id) in &self.region_taint {
             // an op on p depends on q if q is p, below p or above p (root is
             // above everything, so it is never put in the set)
@@ -264,19 +286,51 @@ impl HostState {
         None
     }
     /// p itself (or an ancestor) is tainted: its own existence/kind is unknown.
-    fn self_tainted(&self, p: &str) -> bool {
+    pub(crate) fn self_tainted(&self, p: &str) -> bool {
         self.region_taint.keys().any(|q| is_prefix(q, p))
     }
 }
 
-struct Run<'a> {
-    sc: &'a Scenario,
-    out: Outcome,
-    hosts: Vec<HostState>,
-    ops_done: u32,
-    nt_sync: bool,
-    nt_reuse: bool,
-    last: Last,
+/// What happened in one call of [`Run::step`] (kept when `Run::keep_log`).
+#[derive(Clone, Debug)]
+pub(crate) struct StepRec {
+    pub(crate) host: usize,
+    /// the op with concrete path indices
+    pub(crate) op: Op,
+    /// false: skipped (empty slot, stale handle) or avoided by a rule
+    pub(crate) executed: bool,
+    pub(crate) real_ok: bool,
+    pub(crate) model_ok: bool,
+    /// the op ran inside a region-tainted part of the tree (nothing compared)
+    pub(crate) region_tainted: bool,
+    pub(crate) last: Last,
+    /// inode of the handle a handle op worked on
+    pub(crate) handle_ino: Option<Ino>,
+    /// path that handle was opened with
+    pub(crate) handle_path: Option<String>,
+    /// payload of a writing op
+    pub(crate) data: Vec<u8>,
+}
+
+/// The lock-step interpreter of C10: real side, POSIX model, result
+/// comparison, scans, and the status-driven avoid/taint rules.  C07 drives it
+/// step by step (`keep_log`) and adds the crash oracle on top.
+pub(crate) struct Run<'a> {
+    pub(crate) sc: &'a Scenario,
+    pub(crate) out: Outcome,
+    pub(crate) hosts: Vec<HostState>,
+    pub(crate) ops_done: u32,
+    pub(crate) nt_sync: bool,
+    pub(crate) nt_reuse: bool,
+    pub(crate) last: Last,
+    /// record a [`StepRec`] per step
+    pub(crate) keep_log: bool,
+    pub(crate) log: Vec<StepRec>,
+    /// the Fs syncs files in the background (sync_probability > 0): any file
+    /// that was written may have synced content behind the model's back
+    pub(crate) background_sync: bool,
+    cur_data: Vec<u8>,
+    rec: Option<StepRec>,
     /// resolved handle slot of the op being executed
     cur_slot: Option<usize>,
     /// model state before the op: existing paths, those that are dirs, missing ones
@@ -327,7 +381,7 @@ const KNOWN_KINDS: &[(&str, &str, &str)] = &[
 impl<'a> Run<'a> {
     /// Is the avoid/taint rule `bit` active?  Only while the scenario does
     /// not switch it off *and* its finding is still recorded as "known".
-    fn on(&self, bit: u32) -> bool {
+    pub(crate) fn on(&self, bit: u32) -> bool {
         self.sc.strict & bit == 0 && is_known(finding_of(bit))
     }
 
@@ -410,12 +464,12 @@ impl<'a> Run<'a> {
 
     /// Compare the real tree of host `h` with its model. `why` names the op
     /// after which the scan runs (for the signature).
-    fn scan_host(&mut self, h: usize, why: &str, detail_ctx: &str) {
+    pub(crate) fn scan_host(&mut self, h: usize, why: &str, detail_ctx: &str) {
         if self.out.failure.is_some() {
             return;
         }
         let hs = &mut self.hosts[h];
-        let real = hs.real.enter(scan_real);
+        let real = hs.real.scan();
         let model = scan_model(&hs.model);
         let mut skipped_region = 0u64;
         let mut skipped_data = 0u64;
@@ -489,7 +543,7 @@ impl<'a> Run<'a> {
         }
     }
 
-    fn scan_all(&mut self, acting: usize, why: &str, detail_ctx: &str) {
+    pub(crate) fn scan_all(&mut self, acting: usize, why: &str, detail_ctx: &str) {
         self.scan_host(acting, why, detail_ctx);
         for h in 0..self.hosts.len() {
             if h != acting {
@@ -510,7 +564,7 @@ impl<'a> Run<'a> {
             return;
         }
         let hs = &mut self.hosts[h];
-        let after = hs.real.enter(scan_real);
+        let after = hs.real.scan();
         for (i, p) in PATHS.iter().enumerate() {
             if hs.self_tainted(p) {
                 continue;
@@ -594,11 +648,11 @@ impl<'a> Run<'a> {
 
     // ---- taint helpers -------------------------------------------------------
 
-    fn taint_data(&mut self, h: usize, ino: Ino, id: &'static str) {
+    pub(crate) fn taint_data(&mut self, h: usize, ino: Ino, id: &'static str) {
         self.hosts[h].data_taint.entry(ino).or_insert(id);
         self.out.exclude(id);
     }
-    fn taint_region(&mut self, h: usize, p: &str, id: &'static str) {
+    pub(crate) fn taint_region(&mut self, h: usize, p: &str, id: &'static str) {
         if p == "/" {
             // never taint the root: taint every top-level path instead
             for q in PATHS.iter().filter(|q| pm::components(q).len() == 1) {
@@ -655,12 +709,39 @@ impl<'a> Run<'a> {
         fshistory::concretize(&self.hosts[h].model, op)
     }
 
-    fn step(&mut self, idx: usize, step: &Step) -> bool {
+    /// Execute one step on both sides, compare, apply the rules.  Returns
+    /// false if the op was not executed (skipped / avoided).
+    pub(crate) fn step(&mut self, idx: usize, step: &Step) -> bool {
+        let executed = self.step_inner(idx, step);
+        if self.keep_log {
+            if let Some(mut r) = self.rec.take() {
+                r.executed = executed;
+                self.log.push(r);
+            }
+        }
+        executed
+    }
+
+    fn step_inner(&mut self, idx: usize, step: &Step) -> bool {
         let h = (step.host as usize) % self.hosts.len();
         let step = &Step {
             host: step.host,
             op: self.concretize(h, &step.op),
         };
+        if self.keep_log {
+            self.rec = Some(StepRec {
+                host: h,
+                op: step.op.clone(),
+                executed: false,
+                real_ok: false,
+                model_ok: false,
+                region_tainted: false,
+                last: Last::default(),
+                handle_ino: None,
+                handle_path: None,
+                data: Vec::new(),
+            });
+        }
         if trace_on() {
             eprintln!("  #{idx} host {h} {}", describe(&step.op));
         }
@@ -745,7 +826,7 @@ impl<'a> Run<'a> {
         }
 
         let before = if step.op.is_sync_or_clock() {
-            Some(self.hosts[h].real.enter(scan_real))
+            Some(self.hosts[h].real.scan())
         } else {
             None
         };
@@ -753,6 +834,15 @@ impl<'a> Run<'a> {
         // ------------------------------------------------------------------
         // execute on both sides
         let (real, model) = self.exec(h, step);
+        if let Some(r) = self.rec.as_mut() {
+            r.real_ok = real.is_ok();
+            r.model_ok = model.is_ok();
+            r.region_tainted = region.is_some();
+            r.last = self.last.clone();
+            r.handle_ino = handle_slot.and_then(|s| self.hosts[h].mh[s].as_ref().map(|m| m.ino));
+            r.handle_path = handle_slot.and_then(|s| self.hosts[h].mh[s].as_ref().map(|m| m.path.clone()));
+            r.data = std::mem::take(&mut self.cur_data);
+        }
 
         if let Some(id) = region {
             // nothing compared; everything the op touched is now unknown
@@ -826,10 +916,10 @@ impl<'a> Run<'a> {
 
     fn resync_cursor(&mut self, h: usize, s: usize) {
         let hs = &mut self.hosts[h];
-        if let (Some(rh), Some(mh)) = (hs.rh[s].as_mut(), hs.mh[s].as_mut()) {
+        if let Some(mh) = hs.mh[s].as_mut() {
             let pos = mh.cursor.min(64);
             mh.cursor = pos;
-            let _ = hs.real.enter(|e| e.seek(Fe::Std, rh, SeekFrom::Start(pos)));
+            hs.real.seek_slot(s, pos);
         }
     }
 
@@ -969,11 +1059,12 @@ impl<'a> Run<'a> {
             }
             None => Vec::new(),
         };
-        let real = exec_real(&mut hs.real, &mut hs.rh, &step.op, cur, &data);
+        self.cur_data = if self.keep_log { data.clone() } else { Vec::new() };
+        let real = hs.real.exec(&step.op, cur, &data);
         let (model, last) = exec_model(&mut hs.model, &mut hs.mh, &step.op, cur, &data);
         self.last = last;
         if let Op::Open { slot, .. } = &step.op {
-            reconcile_open(&mut hs.real, &mut hs.rh, &mut hs.mh, *slot);
+            reconcile_open_backend(hs.real.as_mut(), &mut hs.mh, *slot);
         }
         // directory entries that are tainted themselves are not compared
         let filt = |r: Res, hs: &HostState| match r {
@@ -1286,8 +1377,12 @@ impl<'a> Run<'a> {
                 self.taint_data(h, ino, "F-C10-3");
             }
         }
+        let bg = self.background_sync;
         let f = self.hosts[h].facts.entry(ino).or_default();
         f.dirty = true;
+        if bg {
+            f.ever_synced = true;
+        }
         if last.new_len < last.old_len {
             f.shrunk = true;
         }
@@ -1421,22 +1516,33 @@ pub fn run_os(sc: &Scenario) -> Outcome {
     o
 }
 
+impl<'a> Run<'a> {
+    pub(crate) fn new(sc: &'a Scenario, hosts: Vec<HostState>) -> Run<'a> {
+        Run {
+            sc,
+            out: Outcome::ok(),
+            hosts,
+            ops_done: 0,
+            nt_sync: false,
+            nt_reuse: false,
+            last: Last::default(),
+            keep_log: false,
+            log: Vec::new(),
+            background_sync: false,
+            cur_data: Vec::new(),
+            rec: None,
+            cur_slot: None,
+            pre_existing: vec![],
+            pre_dirs: vec![],
+            pre_missing: vec![],
+            pre_ino: None,
+            pre_inos: BTreeMap::new(),
+        }
+    }
+}
+
 fn run_on(sc: &Scenario, hosts: Vec<HostState>) -> Outcome {
-    let mut r = Run {
-        sc,
-        out: Outcome::ok(),
-        hosts,
-        ops_done: 0,
-        nt_sync: false,
-        nt_reuse: false,
-        last: Last::default(),
-        cur_slot: None,
-        pre_existing: vec![],
-        pre_dirs: vec![],
-        pre_missing: vec![],
-        pre_ino: None,
-        pre_inos: BTreeMap::new(),
-    };
+    let mut r = Run::new(sc, hosts);
     let every = sc.scan_every.max(1) as u32;
     let mut fes: BTreeSet<Fe> = BTreeSet::new();
     let mut hosts_used: BTreeSet<usize> = BTreeSet::new();
@@ -1467,13 +1573,6 @@ fn run_on(sc: &Scenario, hosts: Vec<HostState>) -> Outcome {
     }
     // close everything while entered
     for hs in r.hosts.iter_mut() {
-        let hs: &mut HostState = hs;
-        let handles: Vec<Handle> = hs.rh.iter_mut().filter_map(|s| s.take()).collect();
-        hs.real.enter(|e| {
-            for rh in handles {
-                e.close(rh);
-            }
-        });
         hs.real.shutdown();
     }
     if r.nt_sync {
